@@ -299,7 +299,16 @@ Definition spec_ops_unvalidated (p : project) : option (list operation) :=
    always built and validated first) reject a path that does not start with a slash.
    This is the only library rule the generated projects can trigger; the validators as a
    whole are an oracle (C08). *)
-Definition path_ok (o : operation) : bool := has_prefix [slash] (o_path o).
+Fixpoint distinct_params (l : list oparam) : bool :=
+  match l with
+  | [] => true
+  | x :: t => negb (existsb (fun y => str_eqb (op_name x) (op_name y) && str_eqb (op_in x) (op_in y)) t)
+              && distinct_params t
+  end.
+
+(* ... and an operation with two parameters of the same name in the same location *)
+Definition path_ok (o : operation) : bool :=
+  has_prefix [slash] (o_path o) && distinct_params (o_params o).
 
 (* ReceiverValidator.validateSecurity: with enforceSecurityOnAllRoutes every receiver (hidden
    ones included) needs a non-empty effective security, else an error diagnostic stops the
